@@ -19,22 +19,46 @@ use std::time::Duration;
 /// one vertex of the cube: index per switch
 #[derive(Clone, Copy, Debug, PartialEq, Eq, Hash, Serialize, Deserialize)]
 pub struct Vertex {
-    pub alloc: u8,    // 0 std, 1 ::alloc, 2 ::a::b, 3 crate::al (a path that is not global)
-    pub docs: u8,     // 0 off, 1 on
-    pub codec: u8,    // 0 off, 1 on
-    pub root: u8,     // 0 types, 1 r, 2 p (the name of the crate the registry's types live in)
-    pub compact: u8,  // 0 none, 1 set
-    pub bits: u8,     // 0 none, 1 set
-    pub subst: u8,    // 0 none, 1 `p::a::G<T> -> ::ext::Static<T, ::ext::Inner<::ext::Deep<T>>>` (parameter at top level and nested)
+    pub alloc: u8,   // 0 std, 1 ::alloc, 2 ::a::b, 3 crate::al (a path that is not global)
+    pub docs: u8,    // 0 off, 1 on
+    pub codec: u8,   // 0 off, 1 on
+    pub root: u8,    // 0 types, 1 r, 2 p (the name of the crate the registry's types live in)
+    pub compact: u8, // 0 none, 1 set
+    pub bits: u8,    // 0 none, 1 set
+    pub subst: u8, // 0 none, 1 `p::a::G<T> -> ::ext::Static<T, ::ext::Inner<::ext::Deep<T>>>` (parameter at top level and nested)
 }
-const DIMS: [(&str, u8); 7] = [("alloc", 4), ("docs", 2), ("codec", 2), ("root", 3), ("compact", 2), ("bits", 2), ("subst", 2)];
+const DIMS: [(&str, u8); 7] = [
+    ("alloc", 4),
+    ("docs", 2),
+    ("codec", 2),
+    ("root", 3),
+    ("compact", 2),
+    ("bits", 2),
+    ("subst", 2),
+];
 
 impl Vertex {
     fn get(&self, d: usize) -> u8 {
-        [self.alloc, self.docs, self.codec, self.root, self.compact, self.bits, self.subst][d]
+        [
+            self.alloc,
+            self.docs,
+            self.codec,
+            self.root,
+            self.compact,
+            self.bits,
+            self.subst,
+        ][d]
     }
     fn set(&self, d: usize, v: u8) -> Vertex {
-        let mut a = [self.alloc, self.docs, self.codec, self.root, self.compact, self.bits, self.subst];
+        let mut a = [
+            self.alloc,
+            self.docs,
+            self.codec,
+            self.root,
+            self.compact,
+            self.bits,
+            self.subst,
+        ];
         a[d] = v;
         Vertex {
             alloc: a[0],
@@ -49,10 +73,28 @@ impl Vertex {
     /// the sub-cube used for generic definitions: alloc {std, ::a::b} x docs x codec x root, compact and
     /// bits paths set, no substitute
     pub fn generic_subcube() -> Vec<Vertex> {
-        Vertex::all().into_iter().filter(|v| v.alloc != 1 && v.alloc != 3 && v.root != 1 && v.compact == 1 && v.bits == 1 && v.subst == 0).collect()
+        Vertex::all()
+            .into_iter()
+            .filter(|v| {
+                v.alloc != 1
+                    && v.alloc != 3
+                    && v.root != 1
+                    && v.compact == 1
+                    && v.bits == 1
+                    && v.subst == 0
+            })
+            .collect()
     }
     pub fn all() -> Vec<Vertex> {
-        let mut v = vec![Vertex { alloc: 0, docs: 0, codec: 0, root: 0, compact: 0, bits: 0, subst: 0 }];
+        let mut v = vec![Vertex {
+            alloc: 0,
+            docs: 0,
+            codec: 0,
+            root: 0,
+            compact: 0,
+            bits: 0,
+            subst: 0,
+        }];
         for (d, (_, n)) in DIMS.iter().enumerate() {
             let mut next = vec![];
             for x in &v {
@@ -88,7 +130,10 @@ impl Vertex {
             s.bits_path = None;
         }
         if self.subst == 1 {
-            s.substitutes.push(("p::a::G<T>".into(), "::ext::Static<T, ::ext::Inner<::ext::Deep<T>>>".into()));
+            s.substitutes.push((
+                "p::a::G<T>".into(),
+                "::ext::Static<T, ::ext::Inner<::ext::Deep<T>>>".into(),
+            ));
         }
         s
     }
@@ -127,8 +172,13 @@ fn strip_attr(ts: TokenStream, name: &str) -> TokenStream {
 fn rename_ident(ts: TokenStream, from: &str, to: &str) -> TokenStream {
     ts.into_iter()
         .map(|t| match t {
-            TokenTree::Ident(i) if i == from => TokenTree::Ident(proc_macro2::Ident::new(to, i.span())),
-            TokenTree::Group(g) => TokenTree::Group(proc_macro2::Group::new(g.delimiter(), rename_ident(g.stream(), from, to))),
+            TokenTree::Ident(i) if i == from => {
+                TokenTree::Ident(proc_macro2::Ident::new(to, i.span()))
+            }
+            TokenTree::Group(g) => TokenTree::Group(proc_macro2::Group::new(
+                g.delimiter(),
+                rename_ident(g.stream(), from, to),
+            )),
             other => other,
         })
         .collect()
@@ -186,7 +236,13 @@ fn collect_paths(ty: &syn::Type, out: &mut Vec<String>) {
 }
 
 /// per-vertex oracle
-fn check_vertex(v: &Vertex, prog: &Program, tokens: &str, ctx: &mut Ctx, replay: &dyn Fn(&Vertex) -> serde_json::Value) {
+fn check_vertex(
+    v: &Vertex,
+    prog: &Program,
+    tokens: &str,
+    ctx: &mut Ctx,
+    replay: &dyn Fn(&Vertex) -> serde_json::Value,
+) {
     let ts: TokenStream = tokens.parse().unwrap_or_default();
     let em = match parse_emitted(tokens) {
         Ok(e) => e,
@@ -197,10 +253,13 @@ fn check_vertex(v: &Vertex, prog: &Program, tokens: &str, ctx: &mut Ctx, replay:
     };
     let size = prog.to_source().len();
     // codec off: no codec attribute anywhere (fields, variants, items, marker fields)
-    if v.codec == 0 && squash(&strip_attr(ts.clone(), "codec").to_string()) != squash(&ts.to_string()) {
+    if v.codec == 0
+        && squash(&strip_attr(ts.clone(), "codec").to_string()) != squash(&ts.to_string())
+    {
         ctx.violation(
             "C09/codec/attribute-emitted-when-off",
-            "codec attributes are switched off but the output contains a #[codec(..)] attribute".to_string(),
+            "codec attributes are switched off but the output contains a #[codec(..)] attribute"
+                .to_string(),
             replay(v),
             size,
         );
@@ -209,7 +268,10 @@ fn check_vertex(v: &Vertex, prog: &Program, tokens: &str, ctx: &mut Ctx, replay:
     if v.alloc != 0 && has_ident(ts.clone(), "std") {
         ctx.violation(
             "C09/alloc/std-leaks",
-            format!("custom alloc path {} but `std` occurs in the output", v.alloc_prefix()),
+            format!(
+                "custom alloc path {} but `std` occurs in the output",
+                v.alloc_prefix()
+            ),
             replay(v),
             size,
         );
@@ -228,7 +290,10 @@ fn check_vertex(v: &Vertex, prog: &Program, tokens: &str, ctx: &mut Ctx, replay:
                     if p.ends_with(suf) && p != format!("{prefix}{suf}") {
                         ctx.violation(
                             "C09/alloc/not-rooted-at-alloc-path",
-                            format!("`{p}` in {} is not rooted at the configured alloc path {prefix}", item.path.join("::")),
+                            format!(
+                                "`{p}` in {} is not rooted at the configured alloc path {prefix}",
+                                item.path.join("::")
+                            ),
                             replay(v),
                             size,
                         );
@@ -242,12 +307,28 @@ fn check_vertex(v: &Vertex, prog: &Program, tokens: &str, ctx: &mut Ctx, replay:
     for def in &prog.defs {
         let mut p = vec![v.root_name().to_string()];
         p.extend(def.path());
-        let Some(item) = em.items.get(&p) else { continue };
-        let want: Vec<String> = if v.docs == 1 { def.docs.clone() } else { vec![] };
+        let Some(item) = em.items.get(&p) else {
+            continue;
+        };
+        let want: Vec<String> = if v.docs == 1 {
+            def.docs.clone()
+        } else {
+            vec![]
+        };
         if item.docs != want {
             ctx.violation(
-                format!("C09/docs/{}", if v.docs == 1 { "item-docs-differ" } else { "docs-emitted-when-off" }),
-                format!("{} carries docs {:?}, registry has {:?} (docs switch {})", def.name, item.docs, def.docs, v.docs),
+                format!(
+                    "C09/docs/{}",
+                    if v.docs == 1 {
+                        "item-docs-differ"
+                    } else {
+                        "docs-emitted-when-off"
+                    }
+                ),
+                format!(
+                    "{} carries docs {:?}, registry has {:?} (docs switch {})",
+                    def.name, item.docs, def.docs, v.docs
+                ),
                 replay(v),
                 size,
             );
@@ -257,8 +338,18 @@ fn check_vertex(v: &Vertex, prog: &Program, tokens: &str, ctx: &mut Ctx, replay:
                 let want: Vec<String> = if v.docs == 1 { sv.docs.clone() } else { vec![] };
                 if gv.docs != want {
                     ctx.violation(
-                        format!("C09/docs/{}", if v.docs == 1 { "variant-docs-differ" } else { "docs-emitted-when-off" }),
-                        format!("variant {}::{} carries docs {:?}, registry has {:?}", def.name, sv.name, gv.docs, sv.docs),
+                        format!(
+                            "C09/docs/{}",
+                            if v.docs == 1 {
+                                "variant-docs-differ"
+                            } else {
+                                "docs-emitted-when-off"
+                            }
+                        ),
+                        format!(
+                            "variant {}::{} carries docs {:?}, registry has {:?}",
+                            def.name, sv.name, gv.docs, sv.docs
+                        ),
                         replay(v),
                         size,
                     );
@@ -273,12 +364,16 @@ fn check_vertex(v: &Vertex, prog: &Program, tokens: &str, ctx: &mut Ctx, replay:
         }
         let mut p = vec![v.root_name().to_string()];
         p.extend(t.ty.path.segments.iter().cloned());
-        let Some(item) = em.items.get(&p) else { continue };
+        let Some(item) = em.items.get(&p) else {
+            continue;
+        };
         // a prelude `Cow<T>` is transparent: the field is compact when the borrowed type is
         let is_compact = |id: u32| {
             let mut id = id;
             loop {
-                let Some(t) = el.registry.resolve(id) else { return false };
+                let Some(t) = el.registry.resolve(id) else {
+                    return false;
+                };
                 if crate::shape::is_prelude_cow(t) {
                     if let Some(Some(inner)) = t.type_params.first().map(|p| p.ty) {
                         id = inner.id;
@@ -294,40 +389,76 @@ fn check_vertex(v: &Vertex, prog: &Program, tokens: &str, ctx: &mut Ctx, replay:
             let s = squash(&quote::quote!(#ty).to_string());
             s.starts_with('_') && s[1..].chars().all(|c| c.is_ascii_digit())
         };
-        let mut check_fields = |fs: &[scale_info::Field<scale_info::form::PortableForm>], gs: &[FieldAst], what: &str, ctx: &mut Ctx| {
+        let mut check_fields = |fs: &[scale_info::Field<scale_info::form::PortableForm>],
+                                gs: &[FieldAst],
+                                what: &str,
+                                ctx: &mut Ctx| {
             for (rf, gf) in fs.iter().zip(gs.iter()) {
                 let has_codec = gf.attrs.iter().any(|a| a.starts_with("#[codec("));
                 if v.codec == 0 && has_codec {
-                    ctx.violation("C09/codec/attribute-emitted-when-off", format!("{what}: field carries {:?}", gf.attrs), replay(v), size);
+                    ctx.violation(
+                        "C09/codec/attribute-emitted-when-off",
+                        format!("{what}: field carries {:?}", gf.attrs),
+                        replay(v),
+                        size,
+                    );
                 }
                 if is_param(gf) {
                     continue;
                 }
                 if v.codec == 1 && is_compact(rf.ty.id) && !gf.compact {
-                    ctx.violation("C09/codec/compact-marker-missing", format!("{what}: compact field without #[codec(compact)]"), replay(v), size);
+                    ctx.violation(
+                        "C09/codec/compact-marker-missing",
+                        format!("{what}: compact field without #[codec(compact)]"),
+                        replay(v),
+                        size,
+                    );
                 }
                 if v.codec == 1 && !is_compact(rf.ty.id) && gf.compact {
-                    ctx.violation("C09/codec/compact-marker-spurious", format!("{what}: non-compact field with #[codec(compact)]"), replay(v), size);
+                    ctx.violation(
+                        "C09/codec/compact-marker-spurious",
+                        format!("{what}: non-compact field with #[codec(compact)]"),
+                        replay(v),
+                        size,
+                    );
                 }
             }
         };
         match (&t.ty.type_def, &item.kind) {
-            (TypeDef::Composite(c), ItemKind::Struct(f)) => check_fields(&c.fields, f.list(), &item.path.join("::"), ctx),
+            (TypeDef::Composite(c), ItemKind::Struct(f)) => {
+                check_fields(&c.fields, f.list(), &item.path.join("::"), ctx)
+            }
             (TypeDef::Variant(rv), ItemKind::Enum(gv)) => {
                 for (r, g) in rv.variants.iter().zip(gv.iter()) {
                     let idx_attr = g.attrs.iter().find(|a| a.starts_with("#[codec(index"));
                     if v.codec == 0 && g.attrs.iter().any(|a| a.starts_with("#[codec(")) {
-                        ctx.violation("C09/codec/attribute-emitted-when-off", format!("variant {} carries {:?}", g.name, g.attrs), replay(v), size);
-                    }
-                    if v.codec == 1 && g.index != Some(r.index) {
                         ctx.violation(
-                            "C09/codec/variant-index",
-                            format!("variant {}::{} has index attribute {:?}, registry index {}", item.path.join("::"), r.name, idx_attr, r.index),
+                            "C09/codec/attribute-emitted-when-off",
+                            format!("variant {} carries {:?}", g.name, g.attrs),
                             replay(v),
                             size,
                         );
                     }
-                    check_fields(&r.fields, g.fields.list(), &format!("{}::{}", item.path.join("::"), r.name), ctx);
+                    if v.codec == 1 && g.index != Some(r.index) {
+                        ctx.violation(
+                            "C09/codec/variant-index",
+                            format!(
+                                "variant {}::{} has index attribute {:?}, registry index {}",
+                                item.path.join("::"),
+                                r.name,
+                                idx_attr,
+                                r.index
+                            ),
+                            replay(v),
+                            size,
+                        );
+                    }
+                    check_fields(
+                        &r.fields,
+                        g.fields.list(),
+                        &format!("{}::{}", item.path.join("::"), r.name),
+                        ctx,
+                    );
                 }
             }
             _ => {}
@@ -339,14 +470,23 @@ pub fn check_case(c: &SwitchCase, ctx: &mut Ctx) {
     let reg = elaborate(&c.prog).registry;
     let replay = |v: &Vertex| json!({"check": "C09", "case": serde_json::to_value(c).unwrap(), "vertex": serde_json::to_value(v).unwrap(), "source": c.prog.to_source()});
     let mut out: HashMap<Vertex, Result<String, String>> = HashMap::new();
-    let vertices = if c.subcube { Vertex::generic_subcube() } else { Vertex::all() };
+    let vertices = if c.subcube {
+        Vertex::generic_subcube()
+    } else {
+        Vertex::all()
+    };
     for v in vertices.iter().copied() {
         ctx.exec(1);
         let r = match generate(&reg, &v.spec().build()) {
             GenOutcome::Ok { tokens } => Ok(tokens),
             GenOutcome::Err(e) => Err(e.name()),
             GenOutcome::Panic(p) => {
-                ctx.violation("C09/panic", format!("generation panics at vertex {v:?}: {}", truncate(&p, 80)), replay(&v), 1);
+                ctx.violation(
+                    "C09/panic",
+                    format!("generation panics at vertex {v:?}: {}", truncate(&p, 80)),
+                    replay(&v),
+                    1,
+                );
                 Err("PANIC".into())
             }
         };
@@ -383,11 +523,23 @@ pub fn check_case(c: &SwitchCase, ctx: &mut Ctx) {
                     "alloc" => {
                         let pa = squash(v.alloc_prefix());
                         let pb = squash(w.alloc_prefix());
-                        (squash(a).replace(&format!("{pa}::"), &format!("{pb}::")), squash(b))
+                        (
+                            squash(a).replace(&format!("{pa}::"), &format!("{pb}::")),
+                            squash(b),
+                        )
                     }
-                    "docs" => (squash(&ta.to_string()), squash(&strip_attr(tb, "doc").to_string())),
-                    "codec" => (squash(&ta.to_string()), squash(&strip_attr(tb, "codec").to_string())),
-                    "root" => (squash(&rename_ident(ta, v.root_name(), w.root_name()).to_string()), squash(&tb.to_string())),
+                    "docs" => (
+                        squash(&ta.to_string()),
+                        squash(&strip_attr(tb, "doc").to_string()),
+                    ),
+                    "codec" => (
+                        squash(&ta.to_string()),
+                        squash(&strip_attr(tb, "codec").to_string()),
+                    ),
+                    "root" => (
+                        squash(&rename_ident(ta, v.root_name(), w.root_name()).to_string()),
+                        squash(&tb.to_string()),
+                    ),
                     // a path that nothing in this registry needs: the output must not change at all
                     "compact" | "bits" => (squash(a), squash(b)),
                     // the substitute governs the uses of `G` and its definition; compared only when G is absent
@@ -399,7 +551,11 @@ pub fn check_case(c: &SwitchCase, ctx: &mut Ctx) {
                     }
                 };
                 if ra != rb {
-                    let i = ra.chars().zip(rb.chars()).position(|(x, y)| x != y).unwrap_or(ra.len().min(rb.len()));
+                    let i = ra
+                        .chars()
+                        .zip(rb.chars())
+                        .position(|(x, y)| x != y)
+                        .unwrap_or(ra.len().min(rb.len()));
                     let lo = i.saturating_sub(50);
                     ctx.violation(
                         format!("C09/edge/{dname}"),
@@ -415,15 +571,29 @@ pub fn check_case(c: &SwitchCase, ctx: &mut Ctx) {
             }
         }
     }
-    ctx.outcome(&out.values().filter_map(|x| x.as_ref().ok().map(|s| squash(s))).collect::<Vec<_>>());
+    ctx.outcome(
+        &out.values()
+            .filter_map(|x| x.as_ref().ok().map(|s| squash(s)))
+            .collect::<Vec<_>>(),
+    );
 }
 
 fn mentions_heap(t: &Ty) -> bool {
     match t {
-        Ty::Vec(_) | Ty::VecDeque(_) | Ty::Box(_) | Ty::CowStr | Ty::CowBytes | Ty::Cow(_) | Ty::BTreeMap(..) | Ty::BTreeSet(_) | Ty::BinaryHeap(_) => true,
+        Ty::Vec(_)
+        | Ty::VecDeque(_)
+        | Ty::Box(_)
+        | Ty::CowStr
+        | Ty::CowBytes
+        | Ty::Cow(_)
+        | Ty::BTreeMap(..)
+        | Ty::BTreeSet(_)
+        | Ty::BinaryHeap(_) => true,
         Ty::Prim(Prim::Str) => true,
         Ty::Named(_, a) | Ty::Tuple(a) => a.iter().any(mentions_heap),
-        Ty::Array(x, _) | Ty::Option(x) | Ty::Range(x) | Ty::RangeInclusive(x) | Ty::Compact(x) => mentions_heap(x),
+        Ty::Array(x, _) | Ty::Option(x) | Ty::Range(x) | Ty::RangeInclusive(x) | Ty::Compact(x) => {
+            mentions_heap(x)
+        }
         Ty::Result(a, b_) => mentions_heap(a) || mentions_heap(b_),
         _ => false,
     }
@@ -439,9 +609,16 @@ pub fn run(tier: &str, seed: u64) -> i32 {
         match t {
             Ty::Compact(_) => true,
             Ty::Named(_, a) | Ty::Tuple(a) => a.iter().any(mentions_compact),
-            Ty::Vec(x) | Ty::VecDeque(x) | Ty::Box(x) | Ty::Cow(x) | Ty::BTreeSet(x) | Ty::BinaryHeap(x) | Ty::Array(x, _) | Ty::Option(x) | Ty::Range(x) | Ty::RangeInclusive(x) => {
-                mentions_compact(x)
-            }
+            Ty::Vec(x)
+            | Ty::VecDeque(x)
+            | Ty::Box(x)
+            | Ty::Cow(x)
+            | Ty::BTreeSet(x)
+            | Ty::BinaryHeap(x)
+            | Ty::Array(x, _)
+            | Ty::Option(x)
+            | Ty::Range(x)
+            | Ty::RangeInclusive(x) => mentions_compact(x),
             Ty::Result(a, b_) | Ty::BTreeMap(a, b_) => mentions_compact(a) || mentions_compact(b_),
             _ => false,
         }
@@ -456,7 +633,11 @@ pub fn run(tier: &str, seed: u64) -> i32 {
         if !thorough && *depth >= 2 && !mentions_compact(&s.expr) {
             continue;
         }
-        for pos in [Position::NamedStruct, Position::TupleVariant, Position::NamedVariant] {
+        for pos in [
+            Position::NamedStruct,
+            Position::TupleVariant,
+            Position::NamedVariant,
+        ] {
             if !thorough && *depth >= 1 && pos == Position::NamedVariant {
                 continue;
             }
@@ -466,7 +647,10 @@ pub fn run(tier: &str, seed: u64) -> i32 {
                 h.docs = vec!["host doc".into(), "".into(), "second paragraph".into()];
             }
             prog.defs[D_N].docs = vec![" indented".into()];
-            cases.push(SwitchCase { prog, subcube: false });
+            cases.push(SwitchCase {
+                prog,
+                subcube: false,
+            });
         }
     }
     let n_vertices = Vertex::all().len();
@@ -494,7 +678,10 @@ pub fn run(tier: &str, seed: u64) -> i32 {
     let gcases: Vec<SwitchCase> = gall
         .iter()
         .filter(|(_, s)| crate::checks::c05::wf5_ok(s))
-        .map(|(_, s)| SwitchCase { prog: s.program(), subcube: true })
+        .map(|(_, s)| SwitchCase {
+            prog: s.program(),
+            subcube: true,
+        })
         .collect();
     let n_sub = Vertex::generic_subcube().len();
     let mut st = sweep(
